@@ -116,6 +116,10 @@ def build_argv(C):
         a += ["--rename", C["rename"]]
     if C.get("zerocap"):
         a += ["--zero-cap"]
+    if C.get("empty_A_file"):
+        a += ["-A", "file:empty.fasta"]          # an adapter option that yields no adapter at all
+    if C.get("fasta_noop"):
+        a += ["--fasta"]          # every output of these runs is a named file: the option must not change anything
     if C.get("minlen") is not None:
         a += ["-m", C["minlen"]]
     if C.get("maxlen") is not None:
@@ -363,6 +367,8 @@ def observe_run(C, reads1, reads2, workdir):
         inputs = {"in1" + ext: as_bytes(reads1)}
         if paired:
             inputs["in2" + ext] = as_bytes(reads2)
+    if C.get("empty_A_file"):
+        inputs["empty.fasta"] = b""
     sampler = Sampler()
     sampler.index = bool(C.get("index"))
     orig_afa = cli.adapters_from_args
